@@ -32,7 +32,8 @@ GENERATED_OBLIGATIONS = ["Generated.fileDestCall = EJ.stdShape"]
 THEOREMS = ["EJ.C11.crash_prefix", "EJ.C11.acked_after", "EJ.C11.reader_drops_only_fragment", "EJ.C11.crash_readable",
             "EJ.C11.crash_readable_file", "EJ.C11.crash_parse"]
 RULE = ("program = 1-6 top-level tasks of nested start_action / log_message (depth <= 3, 3-60 messages, fields incl. strings "
-        "of 8 KiB - 1 MiB that force chunked writes); kill = self-SIGKILL before write / in write at chunk boundary or byte "
+        "of 8 KiB - 1 MiB that force chunked writes; in 40% of the programs some fields hold a value whose JSON default hook itself "
+        "logs a message from inside the destination - re-entrant logging, acknowledged like any other call); kill = right after such a nested call returned,  self-SIGKILL before write / in write at chunk boundary or byte "
         "offset / between write and flush / after flush, on a raw-fd sink or a BufferedWriter sink, or a parent SIGKILL after a "
         "random delay; non-trivial = the kill lands strictly inside a logging call (self kills; parent kills that leave a fragment "
         "or an unacknowledged complete line); distinct by canonical hash")
@@ -66,11 +67,16 @@ def g_val(rng, big):
     return {"k%d" % i: g_val(rng, 0) for i in range(rng.randint(0, 3))}
 
 
-def g_fields(rng, big):
-    return {"f%d" % i: g_val(rng, big) for i in range(rng.choice([0, 1, 1, 2, 3]))}
+def g_fields(rng, big, noisy=0.0):
+    d = {"f%d" % i: g_val(rng, big) for i in range(rng.choice([0, 1, 1, 2, 3]))}
+    # a value whose JSON default hook logs a message of its own, from inside the destination (re-entrant logging)
+    for i in range(2):
+        if rng.random() < noisy:
+            d["z%d" % i] = {"$noisy": rng.randint(0, 999)}
+    return d
 
 
-def g_ops(rng, depth, big, budget):
+def g_ops(rng, depth, big, budget, noisy=0.0):
     ops = []
     for _ in range(rng.randint(1, 3)):
         if budget[0] <= 0:
@@ -78,24 +84,26 @@ def g_ops(rng, depth, big, budget):
         if depth > 0 and rng.random() < 0.5:
             budget[0] -= 2
             ops.append({"op": "action", "type": rng.choice(["app:a", "app:b", "x\ny", ""]), "fields": g_fields(rng, big),
-                        "body": g_ops(rng, depth - 1, big, budget), "fail": rng.random() < 0.3, "end": g_fields(rng, 0)})
+                        "body": g_ops(rng, depth - 1, big, budget, noisy), "fail": rng.random() < 0.3, "end": g_fields(rng, 0)})
         else:
             budget[0] -= 1
-            ops.append({"op": "msg", "type": rng.choice(["m:1", "m:2"]), "fields": g_fields(rng, big)})
+            ops.append({"op": "msg", "type": rng.choice(["m:1", "m:2"]), "fields": g_fields(rng, big, noisy)})
     return ops
 
 
-def g_program(rng, big, long_):
+def g_program(rng, big, long_, noisy=0.0):
     ops = []
     budget = [rng.randint(100, 300) if long_ else rng.randint(3, 40)]
     while budget[0] > 0 and (long_ or len(ops) < 6):
-        ops += g_ops(rng, 3, big, budget)
+        ops += g_ops(rng, 3, big, budget, noisy)
     return ops
 
 
 def expand(v):
     if isinstance(v, dict) and "$big" in v:
         return str(v.get("c", "x")) * int(v["$big"])
+    if isinstance(v, dict) and "$noisy" in v:
+        return "noisy-%d" % v["$noisy"]          # what the child's JSON default hook returns for it
     if isinstance(v, dict):
         return {k: expand(x) for k, x in v.items()}
     if isinstance(v, list):
@@ -110,6 +118,13 @@ def skeleton(ops, task=None, out=None):
         t = task if task is not None else ("t", len([1 for x in out if x["top"]]))
         top = task is None
         if op["op"] == "msg":
+            # the hook's own messages are logged (and their calls return) while the outer message is being serialised: they
+            # come first; outside an action each is a task of its own, inside one they belong to that action
+            for v in op["fields"].values():
+                if isinstance(v, dict) and "$noisy" in v:
+                    tn = task if task is not None else ("t", len([1 for x in out if x["top"]]))
+                    out.append({"task": tn, "top": top, "kind": "msg", "type": "hook:note", "fields": {"n": v["$noisy"]}, "nested": True})
+            t = task if task is not None else ("t", len([1 for x in out if x["top"]]))
             out.append({"task": t, "top": top, "kind": "msg", "type": op["type"], "fields": expand(op["fields"])})
         else:
             out.append({"task": t, "top": top, "kind": "start", "type": op["type"], "fields": expand(op["fields"])})
@@ -119,7 +134,10 @@ def skeleton(ops, task=None, out=None):
     return out
 
 
-def g_kill(rng, total, sink):
+def g_kill(rng, total, sink, nnested=0):
+    r = rng.random()
+    if nnested and r < 0.45:
+        return {"at": "after-nested-ack", "n": rng.randrange(nnested)}
     r = rng.random()
     n = rng.randrange(total)
     if r < 0.2:
@@ -356,8 +374,15 @@ def oracle(ctx, case, sk, res):
 
 # ---- model tie ---------------------------------------------------------------------------------------
 
-def model_request(kill, sink, chunk, wlens):
+def model_request(kill, sink, chunk, wlens, sk=None):
     """deterministic kill points on the raw sink -> (lens, css, k); None if not predictable"""
+    if kill is not None and kill["at"] == "after-nested-ack":
+        # the hook's k-th logging call has returned: its line and everything before it is complete and acknowledged
+        j = [i for i, x in enumerate(sk or []) if x.get("nested")][kill["n"]]
+        if len(wlens) <= j:
+            return None
+        lens = wlens[:j + 1]
+        return lens, [[] for _ in lens], 3 * (j + 1)
     if sink != "raw" or kill is None:
         return None
     n = kill["n"]
@@ -420,7 +445,8 @@ def run(ctx):
     for i in range(nself + nparent + ncontrol):
         parent = nself <= i < nself + nparent
         big = (65537 if parent else 1 << 20) if rng.random() < 0.45 else 0
-        ops = g_program(rng, big, long_=parent)
+        noisy = 0.25 if rng.random() < 0.4 else 0.0
+        ops = g_program(rng, big, long_=parent, noisy=noisy)
         sk = skeleton(ops)
         sink = "raw" if rng.random() < 0.7 else "buffered"
         chunk = rng.choice([1, 7, 512, 4096, 65536]) if not big else rng.choice([4096, 65536, 1 << 20])
@@ -428,7 +454,7 @@ def run(ctx):
             chunk = 4096
         job = dict(ops=ops, sink=sink, chunk=chunk, kill=None, bufsize=rng.choice([8192, 65536]))
         if i < nself:
-            job["kill"] = g_kill(rng, len(sk), sink)
+            job["kill"] = g_kill(rng, len(sk), sink, sum(1 for x in sk if x.get("nested")))
             job["kind"] = "self"
         elif parent:
             job["delay"] = rng.uniform(0, 0.6 * per_msg * len(sk)) if rng.random() < 0.85 else rng.uniform(0, 0.003)
@@ -450,7 +476,7 @@ def run(ctx):
         where = job["kill"]["at"] if job["kill"] else job["kind"]
         ctx.case(case, nontrivial=inside, tags=["kill:" + where, "sink:" + job["sink"], "kind:" + job["kind"]]
                  + (["fragment-left"] if nfrag else []) + (["unacked-line-on-disk"] if ncomplete > res["acks"] else [])
-                 + (["ran-to-end"] if res["done"] else []))
+                 + (["ran-to-end"] if res["done"] else []) + (["program-with-reentrant-logging"] if any(x.get("nested") for x in sk) else []))
         ctx.count("messages-acked", n=res["acks"])
         if job["kind"] == "self" and res["done"]:
             # n < number of messages, so a destination doing one write + one flush per message passes this point
@@ -462,7 +488,7 @@ def run(ctx):
             ctx.violation("a program without any kill did not run to its end (rc=%s): %s" % (res["rc"], res["stderr"][-300:]), case)
             continue
         ok = oracle(ctx, case, sk, res)
-        mr = model_request(job["kill"], job["sink"], job["chunk"], res["wlens"]) if ok else None
+        mr = model_request(job["kill"], job["sink"], job["chunk"], res["wlens"], sk) if ok else None
         if mr is not None and sum(mr[0]) <= 400000:
             lens, css, k = mr
             reqs.append({"op": "crash", "lens": lens, "css": css, "k": k})
